@@ -12,7 +12,7 @@ import ast
 from .. import symex
 from ..core import (AnalysisError, short, unparse, iter_own, call_name, call_recv,
                     is_self_attr, atomic_facts, always_exits, parents, enclosing_stmt,
-                    enclosing_func, const_members)
+                    enclosing_func, const_members, kwarg)
 
 MOD = 'pylatexenc.latex2text._inputlatexfile'
 L2T = 'pylatexenc.latex2text'
@@ -741,6 +741,36 @@ def run(ctx):
                'is written, so an absolute name (or a symlinked spelling) that resolves INSIDE the input directory is not read'
                % (short(badr.sub, 30) if badr else '', ' & '.join(badr.cond_src())[-140:] if badr else ''),
                construct='read_input_file: refusals')
+
+    # ---- R15m: the only directory ever searched is the configured one
+    ctx.rule('R15m', 'every call of read_latex_file -- from the converter and from read_latex_file itself -- passes the configured '
+                     'input directory (self.tex_input_directory / the function\'s own directory parameter) as the directory, and '
+                     'the module does not consult the process environment: a second search location (TEXINPUTS, the working '
+                     'directory) is checked against ITSELF in strict mode, so a file outside the configured directory is read', 1)
+    n_rc = 0
+    for mm_ in sorted(repo.modules.values(), key=lambda z_: z_.relpath):
+        for q_, f_ in sorted(mm_.functions.items()):
+            for c_ in iter_own(f_):
+                if not (isinstance(c_, ast.Call) and call_name(c_) == FN):
+                    continue
+                n_rc += 1
+                d_ = c_.args[0] if c_.args else kwarg(c_, p_dir)
+                okd = d_ is not None and (unparse(d_) == 'self.tex_input_directory' or
+                                          (mm_ is m and f_ is fn and isinstance(d_, ast.Name) and d_.id == p_dir and
+                                           not any(isinstance(t_, ast.Name) and t_.id == p_dir and isinstance(t_.ctx, ast.Store)
+                                                   for t_ in ast.walk(fn))))
+                ctx.decide('R15m', okd, mm_, c_, '%s passes the configured directory' % q_,
+                           '%s calls read_latex_file with the directory %s, which is not the configured input directory: the '
+                           'containment test is then made against that directory, and strict mode returns a file that lies '
+                           'outside the directory the user configured' % (q_, short(d_, 40) if d_ is not None else '<none>'),
+                           construct='%s: %s' % (q_, short(c_, 50)))
+    if not n_rc:
+        ctx.unknown('R15m', m, None, 'no call of read_latex_file found', construct='read_latex_file calls')
+    envr = [x_ for x_ in ast.walk(m.tree) if isinstance(x_, ast.Attribute) and x_.attr in ('environ', 'getenv', 'getcwd')
+            and unparse(x_.value) == 'os']
+    ctx.decide('R15m', not envr, m, envr[0] if envr else None, 'no use of the process environment in the module',
+               'the file-reading module consults %s: a search location other than the configured directory'
+               % (unparse(envr[0]) if envr else ''), construct='environment reads')
 
     # ---- R15j: per path, the value opened in strict mode passed the containment test
     ctx.rule('R15j', 'on every path of read_latex_file that reaches open() with the strict flag true, a test on the very value '
